@@ -230,5 +230,8 @@ func journal(format string, args ...any) {
 		return
 	}
 	fn := filepath.Join(dir, fmt.Sprintf("current.%d", os.Getpid()))
+	if j := os.Getenv("VERIF_JOURNAL"); j != "" {
+		fn = j
+	}
 	_ = os.WriteFile(fn, []byte(fmt.Sprintf(format, args...)), 0o644)
 }
